@@ -102,6 +102,7 @@ type runner struct {
 	origIn  map[string][]byte
 	origOut map[string][]byte
 	// message object of the last SetUnread, reused when the next operation marks the same message again
+	nInbound                           int
 	lastOp                             Op
 	lastHandle, nextHandle, prevHandle *fbb.Message
 }
@@ -264,6 +265,20 @@ func (r *runner) apply(op Op) (err error) {
 		r.h.SetDeferred(op.M)
 		return nil
 	case "ProcessInbound":
+		r.nInbound++
+		if r.nInbound%3 == 0 {
+			// handed over together with another message in one call (a batch), the universe's message last; the batch mate is
+			// taken out of the inbox again behind the mailbox's back, it is not part of the modelled universe
+			mate := fbb.NewMessage(fbb.Private, "LA5NTA")
+			mate.Header.Set("Mid", "ZZBATCHMATE1")
+			mate.SetDate(fixedDate)
+			mate.AddTo("LA1X")
+			mate.SetSubject("batch mate")
+			mate.SetBody("another message of the same batch\r\n")
+			err := r.h.ProcessInbound(mate, BuildMsg(r.u, op.M, "in"))
+			os.Remove(filepath.Join(r.dir, "in", "ZZBATCHMATE1.b2f"))
+			return err
+		}
 		return r.h.ProcessInbound(BuildMsg(r.u, op.M, "in"))
 	case "SetUnread", "SetUnreadOut":
 		fn := r.h.Inbox
